@@ -545,11 +545,13 @@ def rule_r4(prog, res) -> None:
     members = {"rad": "rad", "deg": "deg", "arcmin": "arcmin", "arcsec": "arcsec", "kpc": "kpc", "Mpc": "Mpc", "kpc_h": "kpc/h", "Mpc_h": "Mpc/h"}
     for cname, (table, dist) in expect.items():
         ci = prog.find_class(cname)
-        m = ci.methods["_compute_angle"]
+        m = prog.find_method(ci, "_compute_angle")  # (possibly shared by a base class and parametrised by class-level constants)
+        if m is None or m.is_abstract:
+            raise AnalysisError(f"C01.R4: {cname} has no _compute_angle implementation")
         res.touch(m)
         # the distance measure that divides the scale on the returned value of every path (helpers and callbacks looked through)
         used = set()
-        for p_ in symx.explore(prog, m, inline=symx.inline_private_helpers(prog)):
+        for p_ in symx.explore(prog, m, inline=symx.inline_private_helpers(prog), selfcls=ci):
             if p_.outcome == "return" and p_.value is not None:
                 used |= {y.func.attr for y in ast.walk(p_.value) if isinstance(y, ast.Call) and isinstance(y.func, ast.Attribute) and y.func.attr.endswith("_distance")}
         if dist is not None and used != {dist}:
@@ -558,7 +560,7 @@ def rule_r4(prog, res) -> None:
         bad = None
         for unit, want in table.items():
             env = {"self.unit": unit, "scales": 1.0, "redshift": 0.5}
-            got = _fold_compute_angle(prog, m, env, members)
+            got = _fold_compute_angle(prog, m, env, members, selfcls=ci)
             if got is None or abs(got - want) > 1e-12 * max(1.0, abs(want)):
                 bad = (unit, got, want)
         if bad:
@@ -567,7 +569,7 @@ def rule_r4(prog, res) -> None:
             res.ok("C01.R4", res.site(m), f"conversion factors folded for units {sorted(table)} match the documented table")
 
 
-def _fold_compute_angle(prog, fi, env: dict, members: dict):
+def _fold_compute_angle(prog, fi, env: dict, members: dict, selfcls=None):
     """value returned by a _compute_angle implementation for one unit, one scale and distance 2: the paths of
     the method (same-module helpers looked through) are pruned with the unit tests decided for this unit and
     `isinstance(x, Quantity)` false; the single remaining return expression is folded numerically"""
@@ -579,7 +581,7 @@ def _fold_compute_angle(prog, fi, env: dict, members: dict):
         if isinstance(e, ast.Attribute) and isinstance(e.value, ast.Name) and e.value.id == "Unit":
             return members.get(e.attr, e.attr)
         if isinstance(e, ast.Call):
-            fnm = (dotted(e.func) or "").split(".")[-1]
+            fnm = (dotted(e.func) or (e.func.attr if isinstance(e.func, ast.Attribute) else "")).split(".")[-1]
             if fnm == "deg2rad":
                 return math.radians(val(e.args[0]))
             if fnm.endswith("_distance"):
@@ -588,6 +590,10 @@ def _fold_compute_angle(prog, fi, env: dict, members: dict):
                 return False
             if fnm in ("asarray", "float", "atleast_1d") and len(e.args) == 1:
                 return val(e.args[0])
+            if fnm == "get" and isinstance(e.func, ast.Attribute) and isinstance(e.func.value, ast.Dict) and e.args and all(k is not None for k in e.func.value.keys):
+                # lookup in a (class-level) table that the symbolic store has substituted
+                table = {val(k): val(v) for k, v in zip(e.func.value.keys, e.func.value.values)}
+                return table.get(val(e.args[0]), val(e.args[1]) if len(e.args) > 1 else None)
             if fnm == "get" and isinstance(e.func, ast.Attribute) and isinstance(e.func.value, ast.Name) and e.args:
                 # lookup in a module-level table, e.g. {Unit.arcsec: 3600.0, Unit.arcmin: 60.0}.get(self.unit)
                 from ..effects import module_const_env
@@ -640,7 +646,7 @@ def _fold_compute_angle(prog, fi, env: dict, members: dict):
             return None
 
     try:
-        paths = symx.explore(prog, fi, oracle=oracle, inline=symx.inline_private_helpers(prog))
+        paths = symx.explore(prog, fi, oracle=oracle, inline=symx.inline_private_helpers(prog), selfcls=selfcls)
         rets = [p for p in paths if p.outcome == "return" and p.value is not None]
         vals = {round(float(val(p.value)), 15) for p in rets}
     except (Unknown, TypeError, ZeroDivisionError, symx.TooManyPaths):
